@@ -59,7 +59,9 @@ Present ==
     [] Family \in {"pkg", "pkg-q"} -> {"p", "p.s", "p.s.c"}
     [] Family \in {"graph", "graph-q", "fine"} -> {"p", "p.a", "p.b", "q"}
     [] Family \in {"wild", "wild-q", "retarget", "retarget-q", "selfcyc", "twostar", "apicyc"} -> {"p", "p.a", "p.b"}
-    [] Family \in {"spl-down", "spl-up"} -> {"p", "p.a", "p.b", "p.s"}
+    [] Family \in {"spl-down", "spl-up", "facade"} -> {"p", "p.a", "p.b", "p.s"}
+    [] Family = "updots" -> {"p", "p.s", "p.s.c"}
+    [] Family = "aliasstar" -> {"p", "p.a", "p.b"}
     [] Family = "side" -> {"p", "q", "r"}
     [] OTHER -> {"p"}
 ModOrder ==
@@ -69,6 +71,9 @@ ModOrder ==
     [] Family = "spl-down" -> <<"p.s", "p.b", "p.a", "p">>    \* p.a splices p.b's __all__, which splices p.s's: dependents are expanded first
     [] Family = "spl-up" -> <<"p.a", "p.b", "p.s", "p">>      \* p.s splices p.b's, which splices p.a's: dependencies are expanded first
     [] Family = "side" -> <<"r", "q", "p">>
+    [] Family = "facade" -> <<"p.s", "p.a", "p.b", "p">>     \* p star-imports p.b, which re-exports from p.a, which imports the sub-module p.s
+    [] Family = "updots" -> <<"p", "p.s", "p.s.c">>          \* the sub-package / its module import from the (already imported) ancestors
+    [] Family = "aliasstar" -> <<"p.a", "p.b", "p">>
     [] Family \in {"selfcyc", "twostar", "apicyc"} -> <<"p.a", "p.b", "p">>           \* a sub-module star-imports its (already imported) parent package
     [] Family \in {"graph", "graph-q", "fine"} -> <<"p.a", "p.b", "p", "q">>
     [] OTHER -> <<"p">>
@@ -108,6 +113,19 @@ Menu(m) ==
                [] m = "p.b" -> {FromAs(leaf, "__all__", "a_all"), AllInc(<<>>, "a_all"), Def("y"), AllInc(<<"y">>, "a_all")}
                [] m = api -> {FromAs("p.b", "__all__", "b_all"), AllInc(<<>>, "b_all")}
                [] OTHER -> {All(<<>>)} )
+    [] Family = "facade" ->        \* wildcard re-export chains of 2-3 links that end on an import of a sibling SUB-MODULE of the importing package
+        ( CASE m = "p.s" -> {Def("x")}
+            [] m = "p.a" -> {FromRel("p", "s"), From("p", "s"), Def("y")}
+            [] m = "p.b" -> {Star("p.a"), StarRel("p.a"), From("p.a", "s")}
+            [] OTHER -> {Star("p.b"), StarRel("p.b"), Star("p.a")} )
+    [] Family = "updots" ->        \* relative imports of level >= 2 without a module part (`from .. import x`) in a sub-package __init__ / its module
+        ( CASE m = "p" -> {Def("x"), Def("y")}
+            [] m = "p.s" -> {FromRel("p", "x"), FromRel("p", "y"), From("p", "x"), FromRel("p.s", "c"), Def("x")}
+            [] OTHER -> {FromRel("p", "x"), FromRel("p.s", "x"), FromRel("p.s", "y")} )
+    [] Family = "aliasstar" ->     \* wildcard sources named through a module alias (`import p.a as y` ... `from p.y import *`), inside cycles
+        ( CASE m = "p.a" -> {Star("p.y"), Def("x"), Star("p.b")}
+            [] m = "p.b" -> {Star("p.y"), Star("p.a")}
+            [] OTHER -> {ImportAs("p.a", "y"), FromAs("p", "a", "y")} )
     [] Family = "side" ->          \* three top-level packages; only p is loaded, the others are side-loaded by resolve_aliases(external=True)
         ( CASE m = "r" -> {Def("y")}
             [] m = "q" -> {Def("x"), From("r", "y"), FromAs("r", "y", "x")} \cup (IF Scale = "quick" THEN {} ELSE {From("zz", "y"), Def("y")})
@@ -173,6 +191,9 @@ MaxLen(m) ==
     [] Family = "side" -> (IF m = "r" THEN 1 ELSE 2)
     [] Family = "selfcyc" -> 2
     [] Family = "twostar" -> 1
+    [] Family = "facade" -> (IF m = "p.a" THEN 2 ELSE 1)
+    [] Family = "updots" -> (IF m = "p.s.c" THEN 1 ELSE 2)
+    [] Family = "aliasstar" -> (IF m = "p" THEN 1 ELSE 2)
     [] Family = "apicyc" -> 1
     [] Family \in {"pkg", "pkg-q"} -> (IF m = "p.s.c" THEN 1 ELSE 2)
     [] Family \in {"graph", "graph-q", "fine", "wild", "wild-q", "retarget", "retarget-q"} -> (IF m = "q" THEN 1 ELSE 2)
@@ -185,6 +206,9 @@ MaxTotal ==
   ELSE IF Family = "side" THEN (IF Scale = "quick" THEN 4 ELSE 5)
   ELSE IF Family = "selfcyc" THEN (IF Scale = "quick" THEN 3 ELSE 4)
   ELSE IF Family = "twostar" THEN 3
+  ELSE IF Family = "facade" THEN 5
+  ELSE IF Family = "updots" THEN 4
+  ELSE IF Family = "aliasstar" THEN 4
   ELSE IF Family = "apicyc" THEN 3
   ELSE IF Scale = "quick"
        THEN ( CASE Family = "chain-q" -> 3 [] Family = "exports-q" -> 4 [] Family = "pkg-q" -> 3 [] Family = "reexp-q" -> 6
